@@ -236,11 +236,26 @@ def eval_time_expr(ix: Index, f: FuncInfo, expr, groups: typing.Dict[str, str], 
   """Evaluate `expr` with every `m.group('<name>')` replaced by sample digit strings; returns list
   of (assignment, value).  groups: role -> group name, roles h, m, s, ms."""
   ce = ConstEval(ix, symbolic_ok=False)
+  e, mapping = groups_substituted(ix, f, expr)
+  return _eval_time_samples(ix, f, expr, e, mapping, groups, ce)
+
+
+def groups_substituted(ix: Index, f: FuncInfo, expr):
+  """expr with the locals read through and every `m.group(<name>)` replaced by the variable `__g_<name>`; returns (expression, {call text: variable})."""
+  from .match import inline_locals_deep
+  ce = ConstEval(ix, symbolic_ok=False)
   mapping = {}
+  # locals that name a part of the time (hours = int(m.group('h')) ...) are read through to the groups
+  expr = inline_locals_deep(f.node, expr, keep={unparse(n.func.value) for n in ast.walk(expr) if isinstance(n, ast.Call) and isinstance(n.func, ast.Attribute) and n.func.attr == "group"})
   for n in ast.walk(expr):
-    if isinstance(n, ast.Call) and isinstance(n.func, ast.Attribute) and n.func.attr == "group" and n.args and isinstance(n.args[0], ast.Constant):
-      mapping[unparse(n)] = "__g_" + str(n.args[0].value)
-  e = substitute(expr, mapping)
+    if isinstance(n, ast.Call) and isinstance(n.func, ast.Attribute) and n.func.attr == "group" and n.args:
+      gname = n.args[0].value if isinstance(n.args[0], ast.Constant) else ce.try_ev(f.module, n.args[0], default=None)
+      if isinstance(gname, str):
+        mapping[unparse(n)] = "__g_" + gname
+  return substitute(expr, mapping), mapping
+
+
+def _eval_time_samples(ix, f, expr, e, mapping, groups, ce):
   samples = [{"h": "01", "m": "02", "s": "03", "ms": "004"}, {"h": "10", "m": "59", "s": "00", "ms": "280"}, {"h": "100", "m": "07", "s": "59", "ms": "999"}]
   out = []
   for smp in samples:
@@ -373,9 +388,29 @@ def check_region_key(ctx, f: FuncInfo, rule="TAB-region-key"):
       if isinstance(n, (ast.GeneratorExp, ast.ListComp, ast.SetComp)):
         for gen in n.generators:
           itervars |= {x.id for x in ast.walk(gen.target) if isinstance(x, ast.Name)}
+    # a loop variable that ranges over a literal table of (property, value) rows stands for every property of that table
+    from .match import local_defs
+    ldefs = local_defs(g.node)
+    ranges = {}
+    for n in own_nodes(g.node):
+      gens = n.generators if isinstance(n, (ast.GeneratorExp, ast.ListComp, ast.SetComp)) else ([n] if isinstance(n, ast.For) else [])
+      for gen in gens:
+        tab = gen.iter
+        if isinstance(tab, ast.Name) and len(ldefs.get(tab.id, [])) == 1:
+          tab = ldefs[tab.id][0]
+        tab = ix.deref(g.module, tab, cls=g.cls, func=g)
+        if not isinstance(tab, (ast.Tuple, ast.List)):
+          continue
+        tgts = gen.target.elts if isinstance(gen.target, ast.Tuple) else [gen.target]
+        for i, t in enumerate(tgts):
+          if isinstance(t, ast.Name):
+            col = [(row.elts[i] if isinstance(row, (ast.Tuple, ast.List)) and len(row.elts) == len(tgts) and isinstance(gen.target, ast.Tuple) else row) for row in tab.elts]
+            ranges[t.id] = col
     for c in own_nodes(g.node):
       if isinstance(c, ast.Call) and isinstance(c.func, ast.Attribute) and c.func.attr == "get_style" and c.args and isinstance(c.func.value, ast.Name) and c.func.value.id in itervars:
-        compared.add(unparse(c.args[0]).split(".")[-1])
+        a = c.args[0]
+        for e in (ranges[a.id] if isinstance(a, ast.Name) and a.id in ranges else [a]):
+          compared.add(unparse(e).split(".")[-1])
     for c in own_nodes(g.node):
       if isinstance(c, ast.Call) and isinstance(c.func, ast.Attribute) and c.func.attr == "set_style" and len(c.args) == 2:
         p = unparse(c.args[0]).split(".")[-1]
